@@ -232,6 +232,8 @@ func runC07(ctx *Ctx) {
 	}
 	ctx.res.Exhaustive = true
 	ctx.res.Scope = fmt.Sprintf("all %d types of size<=%d over attribute names {a,b} (one optional variant), one capsule type; all %d ordered pairs among the %d types of size<=%d", len(small), maxSize, len(pairPool)*len(pairPool), len(pairPool), map[bool]int{false: 2, true: 3}[ctx.Thorough])
+	// 1b. attribute names that need escaping in JSON / are not NFC / are unusual (harness/c07names.go)
+	c07OddNames_run(ctx)
 	// 2. random deep types
 	n := ctx.N(1500, 60000)
 	depth := ctx.N(3, 4)
